@@ -6,7 +6,7 @@
 // and cut short / garbage with the compression flag), and whether the node demands authentication
 // (STARTUP answered by READY / by AUTHENTICATE then AUTH_SUCCESS / by AUTHENTICATE, AUTH_CHALLENGE,
 // AUTH_SUCCESS), so that every way out of the STARTUP exchange is crossed with every (advertised,
-// configured) pair. Then one simple QUERY and one prepared statement (PREPARE + EXECUTE). The oracle
+// configured) pair, and whether / where / how encoded the node pushes an EVENT frame (stream -1). Then one simple QUERY and one prepared statement (PREPARE + EXECUTE). The oracle
 // reads the node's request log.
 package main
 
@@ -75,6 +75,26 @@ var authModes = []struct {
 	{"authenticate-challenge-success", true, 1},
 }
 
+// server-pushed EVENT frames (stream -1) on the established connection: where the node pushes one
+// STATUS_CHANGE and how it encodes it. "as-negotiated" = compressed with the negotiated algorithm and
+// flagged (only an alternative when the (advertised, configured) pair negotiates one); compressing a
+// response is the server's choice, so the plain form is pushed on such connections too.
+var eventModes = []struct {
+	name       string
+	pos        int // 0 none, 1 right after the frame that ends the STARTUP exchange, 2 right after the reply to the QUERY
+	compressed bool
+}{
+	{"none", 0, false},
+	{"plain-after-handshake", 1, false},
+	{"plain-between-requests", 2, false},
+	{"as-negotiated-after-handshake", 1, true},
+	{"as-negotiated-between-requests", 2, true},
+}
+
+var eventMsg = frame.EventStatusChange{Change: "UP", Addr: []byte{10, 0, 0, 7}, Port: 9042}
+
+const eventSeen = "STATUS_CHANGE UP 10.0.0.7 9042"
+
 const authClass = "org.apache.cassandra.auth.PasswordAuthenticator"
 
 // stepAuth is the client's authenticator: it answers the AUTHENTICATE and every AUTH_CHALLENGE with a
@@ -130,12 +150,31 @@ func body() {
 	cc := clientComp[vs.Choose(len(clientComp), vs.Free)]
 	mode := modes[vs.Choose(len(modes), vs.Free)]
 	am := authModes[vs.Choose(len(authModes), vs.Free)]
+	// the event dimension is crossed with the reply modes that leave the connection healthy (plain, compressed-*);
+	// the as-negotiated alternatives exist only where a compressor will be negotiated
+	nEv := 1
+	if mode.corrupt == 0 {
+		nEv = 3
+		if cc.c != nil && contains(adv.list, cc.name) {
+			nEv = 5
+		}
+	}
+	em := eventModes[vs.Choose(nEv, vs.Free)]
+	eventsPushed := 0
 
 	var wlog []vnet.WriteRec
 	client, server := vnet.Pipe("c0", &net.TCPAddr{IP: net.IPv4(10, 0, 0, 9), Port: 40000}, &net.TCPAddr{IP: net.IPv4(10, 0, 0, 1), Port: 9042})
 	client.Log = &wlog
 	node := newNode(server, adv.list)
 	corruptBodyAccepted := false // the reference decoder of the negotiated algorithm accepts the body meant to be corrupt
+	pushEvent := func(n *cnode, raw []byte, v int) []byte {
+		algo := ""
+		if em.compressed {
+			algo = n.negotiated
+		}
+		eventsPushed++
+		return append(raw, encodeReply(frame.Header{Version: v, Stream: -1}, eventMsg, algo, 0)...)
+	}
 	node.reply = func(n *cnode, r *reqLog) []byte {
 		var msg interface{}
 		post := true
@@ -179,7 +218,14 @@ func body() {
 			msg = frame.ResultVoid{}
 		}
 		if !post {
-			return encodeReply(r.h, msg, "", 0)
+			raw := encodeReply(r.h, msg, "", 0)
+			switch msg.(type) {
+			case frame.Ready, *frame.AuthSuccess:
+				if em.pos == 1 {
+					raw = pushEvent(n, raw, r.h.Version)
+				}
+			}
+			return raw
 		}
 		algo := mode.algo
 		if algo != "" && n.negotiated != "" {
@@ -196,6 +242,9 @@ func body() {
 				corruptBodyAccepted = true
 			}
 		}
+		if _, isQuery := r.req.Msg.(*frame.Query); isQuery && em.pos == 2 {
+			raw = pushEvent(n, raw, r.h.Version)
+		}
 		return raw
 	}
 
@@ -206,7 +255,7 @@ func body() {
 	cluster.WriteCoalesceWaitTime = 0
 	cluster.Compressor = cc.c
 	cluster.Authenticator = stepAuth{0}
-	live, derr := gocql.VerifDial(client, *cluster, true)
+	live, sess, derr := gocql.VerifDialEvents(client, *cluster, true)
 
 	var results []opResult
 	if derr == nil {
@@ -233,7 +282,7 @@ func body() {
 
 	// ---------------------------------------------------------------- oracle
 	pDev, dDev, _ := vs.Deviations()
-	desc := fmt.Sprintf("SUPPORTED COMPRESSION %s, client compressor %q, replies %s, STARTUP exchange %s", adv.name, cc.name, mode.name, am.name)
+	desc := fmt.Sprintf("SUPPORTED COMPRESSION %s, client compressor %q, replies %s, STARTUP exchange %s, pushed EVENT %s", adv.name, cc.name, mode.name, am.name, em.name)
 	expect := ""
 	if cc.c != nil && contains(adv.list, cc.name) {
 		expect = cc.name
@@ -354,6 +403,34 @@ func body() {
 			}
 		}
 	}
+	// (3) the pushed EVENT: a well-formed event, plain or compressed as negotiated, is decoded to what the node encoded
+	// and handed to the session (and - by (2) - the connection stays usable: the following requests get their rows).
+	// Demanded only when no timer fired early and the handshake succeeded; the node pushes it right behind a frame the
+	// client accepts (mode.corrupt == 0), so nothing before it in the byte stream closes the connection.
+	var seen []string
+	if sess != nil {
+		seen = gocql.VerifEventsSeen(sess)
+	}
+	if len(seen) > eventsPushed {
+		vs.Failf("c18:event:more-events-delivered-than-pushed", "session got %q, node pushed %d [%s]", seen, eventsPushed, desc)
+	}
+	for _, e := range seen {
+		if e != eventSeen {
+			vs.Failf("c18:event:decoded-event-differs", "session got %q, node pushed %q [%s]", e, eventSeen, desc)
+		}
+	}
+	if derr == nil && dDev == 0 && eventsPushed == 1 && len(seen) != 1 {
+		key := "c18:event:plain-event-not-delivered"
+		if em.compressed {
+			key = "c18:event:negotiated-compressed-event-not-delivered"
+		}
+		errs := []string(nil)
+		if live != nil {
+			errs = live.Errors
+		}
+		vs.Failf(key, "node pushed 1 EVENT (%s), the session got %q; connection errors %q [%s]", em.name, seen, errs, desc)
+	}
+	vs.Observe("ev=%s seen=%d ", em.name, len(seen))
 	vs.Observe("adv=%s client=%s mode=%s auth=%s negotiated=%q dial=%v authResponses=%d %s", adv.name, cc.name, mode.name, am.name, node.negotiated, derr == nil, len(node.authResponses), strings.Join(sig, " "))
 	if debug {
 		var errs []string
@@ -370,7 +447,7 @@ func main() {
 		return &vs.Scenario{Name: "negotiation-handshake-query-prepared", Cfg: vs.Config{MaxSteps: 30000, Horizon: 700 * time.Millisecond, DelayBounded: true}, Body: body}
 	}}}
 	mcreport.Main("C18", "exploration",
-		"controlled-scheduler part (negotiation on a real connection): free choices, all explored: SUPPORTED COMPRESSION {absent,[snappy],[lz4],[lz4,snappy],[deflate]} x client compressor {none,snappy,lz4} x node reply encoding after STARTUP {plain, compressed, compressed and cut to half, 12 garbage bytes with the flag; compressed = with the negotiated compressor, else snappy / lz4 as two alternatives} x how the node ends the STARTUP exchange {READY; AUTHENTICATE, AUTH_SUCCESS; AUTHENTICATE, AUTH_CHALLENGE, AUTH_SUCCESS - the client has an authenticator that answers every step} = 270 configurations, each through the real handshake (VerifDial), one QUERY and one PREPARE+EXECUTE on the instrumented Conn; schedules/timers delay-bounded (every execution departing at most T times from the default schedule). Oracle from the node's request log (requests inflated by the peer's own snappy / Cassandra-lz4 decoders and decoded by the reference request decoder): STARTUP carries COMPRESSION=<name> iff configured and advertised; OPTIONS/STARTUP never flagged; after negotiation every request with a body (AUTH_RESPONSE excepted: plain or flagged) is flagged and decodes to what the caller / authenticator gave, without negotiation none - AUTH_RESPONSE included - is flagged; a connection is returned only after AUTH_SUCCESS when authentication was demanded; plain and correctly compressed replies are delivered as rows; a flagged reply on a connection without negotiated compressor, and a body the negotiated decoder rejects, give the caller an error; no panic on any thread",
+		"controlled-scheduler part (negotiation on a real connection): free choices, all explored: SUPPORTED COMPRESSION {absent,[snappy],[lz4],[lz4,snappy],[deflate]} x client compressor {none,snappy,lz4} x node reply encoding after STARTUP {plain, compressed, compressed and cut to half, 12 garbage bytes with the flag; compressed = with the negotiated compressor, else snappy / lz4 as two alternatives} x how the node ends the STARTUP exchange {READY; AUTHENTICATE, AUTH_SUCCESS; AUTHENTICATE, AUTH_CHALLENGE, AUTH_SUCCESS - the client has an authenticator that answers every step} (270) x server-pushed EVENT {none; one STATUS_CHANGE on stream -1 pushed right behind the frame that ends the STARTUP exchange / right behind the reply to the QUERY, encoded plain / compressed with the negotiated compressor and flagged - the compressed forms only where a compressor is negotiated, the event alternatives only with the reply encodings the client accepts (plain, compressed)} = 612 configurations, each through the real handshake (VerifDialEvents: VerifDial on a session with passive event debouncers), one QUERY and one PREPARE+EXECUTE on the instrumented Conn; schedules/timers delay-bounded (every execution departing at most T times from the default schedule). Oracle from the node's request log (requests inflated by the peer's own snappy / Cassandra-lz4 decoders and decoded by the reference request decoder): STARTUP carries COMPRESSION=<name> iff configured and advertised; OPTIONS/STARTUP never flagged; after negotiation every request with a body (AUTH_RESPONSE excepted: plain or flagged) is flagged and decodes to what the caller / authenticator gave, without negotiation none - AUTH_RESPONSE included - is flagged; a connection is returned only after AUTH_SUCCESS when authentication was demanded; plain and correctly compressed replies are delivered as rows; a flagged reply on a connection without negotiated compressor, and a body the negotiated decoder rejects, give the caller an error; a pushed well-formed EVENT, plain or compressed as negotiated, reaches Session.handleEvent decoded to what the node encoded and leaves the connection usable (the following requests get their rows); no panic on any thread",
 		[]string{"protocol v4, one connection, request/connect timeout 100ms, no write coalescing, horizon 700ms (before the first heartbeat)",
 			"stream-allocator atomics are not scheduling points (C08); outcomes of replies are demanded only in executions without an early timer"},
 		defs, 45*time.Second, 8*time.Minute, nil)
